@@ -268,6 +268,7 @@ def _paging(page, s0, nh):
     over 4 packed objects and a loose one"""
     w = make_world(10**9, page=page)
     try:
+        w.set_next_id(5001)  # primary keys are sparse in a container that has seen deletions
         w.set_pack(0, [('junk', 0, 1), ('obj', 1, 5), ('obj', 2, 6), ('obj', 3, 7), ('obj', 4, 8)])
         w.put_loose(0, s0)
         objs = objs_map(w, [(0, s0), (1, 5), (2, 6), (3, 7), (4, 8)])
